@@ -1,6 +1,9 @@
 package verifrt
 
-import "io"
+import (
+	"encoding/json"
+	"io"
+)
 
 // Buf is an io.Writer collecting what is written.
 type Buf struct{ B []byte }
@@ -82,4 +85,29 @@ func RandInt63n(n int64) int64 {
 	v := I64("rand.int63n")
 	Assume(v >= 0 && v < n)
 	return v
+}
+
+// ---------- encoding/json (reflection-based; only the fact that something is written matters) ----------
+
+var jsonWriters = map[*json.Encoder]io.Writer{}
+
+//verif:stub encoding/json.NewEncoder
+func JSONNewEncoder(w io.Writer) *json.Encoder {
+	e := &json.Encoder{}
+	jsonWriters[e] = w
+	return e
+}
+
+//verif:stub (*encoding/json.Encoder).Encode
+func JSONEncode(e *json.Encoder, v any) error {
+	_, err := jsonWriters[e].Write([]byte("{\"json\":true}\n"))
+	return err
+}
+
+//verif:stub encoding/json.Marshal
+func JSONMarshal(v any) ([]byte, error) { return []byte("{\"json\":true}"), nil }
+
+//verif:stub encoding/json.MarshalIndent
+func JSONMarshalIndent(v any, prefix, indent string) ([]byte, error) {
+	return []byte("{\"json\":true}"), nil
 }
